@@ -32,7 +32,8 @@ def _deliveries(rng, pairs, k):
 
 
 def _wind_down(npay, rng, pairs, settle=True):
-    ops = [{"op": "reconnect", "a": a, "b": b} for a, b in pairs]
+    ops = [{"op": "hold_events", "node": n, "on": False} for n in sorted({x for p in pairs for x in p})]
+    ops += [{"op": "reconnect", "a": a, "b": b} for a, b in pairs]
     ops.append({"op": "deliver_all"})
     for n in {x for p in pairs for x in p}:
         ops.append({"op": "persist_mode", "node": n, "mode": "completed"})
@@ -235,6 +236,40 @@ def holdcell(rng):
     return {"cfg": cfg, "ops": ops}
 
 
+def crosslimit(rng):
+    """Crossing traffic plus a boundary amount: y has k HTLCs on the wire / in its holding cell that x has
+    not seen when x sends exactly its reported limit (C01: limits exact -- an HTLC inside them is accepted
+    by the sender AND by the peer; the two sides agree on what the next commitments contain)."""
+    x = rng.choice([0, 0, 1])
+    y = 1 - x
+    value = rng.choice([100000, 100000, 1000000])
+    cfg = {"nodes": 2, "chan_type": rng.choice(TYPES), "value": value,
+           "push": rng.choice([0, value * 300, value * 500, value * 700, value * 900]), "feerate": rng.choice([253, 253, 1000, 5000])}
+    if cfg["feerate"] == 5000 and cfg["push"] >= value * 900 and value == 100000:
+        cfg["feerate"] = 1000      # (the funder could not afford to open such a channel)
+    ops = []
+    npay = 0
+    if rng.random() < 0.3:
+        ops += [{"op": "send", "from": rng.choice([0, 1]), "to": 0, "amt": "half"}]
+        ops[-1]["to"] = 1 - ops[-1]["from"]
+        npay += 1
+        ops += [{"op": "deliver_all"}, {"op": "claim", "pay": 0}, {"op": "deliver_all"}]
+    k = rng.choice([0, 1, 2, 2, 3, 4, 8, 9, 10])
+    for _ in range(k):
+        ops.append({"op": "send", "from": y, "to": x, "amt": rng.choice(["justabove", "justabove", "dust-edge", "dust"])})
+        npay += 1
+    ops += [{"op": "deliver", "from": y, "to": x}] * rng.choice([0, 0, 1, 2])
+    ops.append({"op": "send", "from": x, "to": y, "amt": rng.choice(["limit", "limit", "limit", "limit+1", "half"])})
+    npay += 1
+    ops += [{"op": "deliver", "from": x, "to": y}] * rng.choice([1, 2, 2])
+    ops += _deliveries(rng, [(0, 1), (1, 0)], rng.randrange(0, 5))
+    ops += [{"op": "reconnect", "a": 0, "b": 1}, {"op": "deliver_all"}]
+    for j in range(npay):
+        ops.append({"op": "claim" if rng.random() < 0.6 else "fail", "pay": j})
+    ops += [{"op": "reconnect", "a": 0, "b": 1}, {"op": "deliver_all"}, {"op": "proj", "final": True}]
+    return {"cfg": cfg, "ops": ops}
+
+
 def stalehold(rng):
     """A - B - C.  A forward (or B's own payment) waits in the holding cell of B-C (B is waiting for C's
     revoke_and_ack) when B's manager is written; B-C's monitor then moves on without freeing the holding
@@ -284,7 +319,52 @@ def stalehold(rng):
     return {"cfg": _cfg(rng, 3), "ops": ops}
 
 
-FAMILIES = {"failwin": failwin, "fanin": fanin, "inflight": inflight, "holdcell": holdcell, "stalehold": stalehold}
+def evhold(rng):
+    """The user of node X answers ReplayEvent to payment events for a while (C10: persistent events are
+    handed over again until handled, also across a restart; completion actions wait for the handling)."""
+    n = rng.choice([2, 2, 3])
+    pairs = [(i, i + 1) for i in range(n - 1)]
+    dirs = pairs + [(b, a) for (a, b) in pairs]
+    ops = []
+    npay = 0
+    for _ in range(rng.choice([1, 2, 2, 3])):
+        a, b = (0, n - 1) if rng.random() < 0.7 else (n - 1, 0)
+        ops.append({"op": "send", "from": a, "to": b, "amt": rng.choice(["big", "justabove", "dust"])})
+        npay += 1
+        if rng.random() < 0.7:
+            ops.append({"op": "deliver_all"})
+    x = rng.randrange(n)
+    ops.append({"op": "hold_events", "node": x, "on": True})
+    if rng.random() < 0.3:
+        ops.append({"op": "hold_events", "node": rng.randrange(n), "on": True})
+    ops.append({"op": "deliver_all"})
+    if rng.random() < 0.2:
+        ops.append({"op": "persist_mode", "node": x, "mode": "inprogress"})
+    for k in range(npay):
+        if rng.random() < 0.8:
+            ops.append({"op": "claim" if rng.random() < 0.75 else "fail", "pay": k})
+        ops += _deliveries(rng, dirs, rng.randrange(0, 8))
+        if rng.random() < 0.3:
+            ops.append({"op": "forward", "node": rng.randrange(n)})
+    if rng.random() < 0.5:
+        ops.append({"op": "save", "node": x})
+        ops += _deliveries(rng, dirs, rng.randrange(0, 5))
+    r = rng.random()
+    if r < 0.55:
+        ops.append({"op": "crash", "node": x, "mgr": rng.choice([0, 0, 1, "saved"]), "mon": rng.choice(["latest", "durable", "random"])})
+    elif r < 0.75:
+        ops.append({"op": "reload", "node": x})
+    for (a, b) in pairs:
+        ops.append({"op": "reconnect", "a": a, "b": b})
+    ops += _deliveries(rng, dirs, rng.randrange(0, 8))
+    if rng.random() < 0.3:
+        ops.append({"op": "hold_events", "node": x, "on": False})
+        ops += _deliveries(rng, dirs, rng.randrange(0, 6))
+    ops += _wind_down(npay, rng, pairs)
+    return {"cfg": _cfg(rng, n), "ops": ops}
+
+
+FAMILIES = {"crosslimit": crosslimit, "evhold": evhold, "failwin": failwin, "fanin": fanin, "inflight": inflight, "holdcell": holdcell, "stalehold": stalehold}
 
 
 def make(rng, family, count):
